@@ -715,7 +715,11 @@ class Worker:
         facts = self._fit_facts(fam, profile, ds)
         facts["ignore"] = ignore
         old = self.models.get(a["m"])
-        self._drop_model(a["m"])
+        # an object that is fitted again stays in service if the new fit is *refused* by a guard (see below)
+        keep_old = bool(reuse and old is not None and old.fitted and old.fam == fam and old.profile == profile
+                        and ds is not None and not a.get("abort"))
+        if not keep_old:
+            self._drop_model(a["m"])
         if ds is None:
             return {"class": "skipped", "facts": facts}
         try:
@@ -750,7 +754,24 @@ class Worker:
             out["error"] = str(e)[:200]
             after = self.data_state(ds.obj)
             out["data_changed"] = D.diff_parts(before, after)
+            if keep_old:
+                refused = facts.get("wrong_type") or (facts.get("needs_ghi") and not facts.get("has_ghi")) or (
+                    facts.get("data_dq") and not ignore and fam != "caltrack")
+                if refused:
+                    # the call was refused by a guard (wrong data type, missing feature, disqualified baseline without
+                    # the override): nothing was fitted, the object is still the model of its earlier baseline and
+                    # stays in service; what the gate knows about it must be what it knew before the call
+                    self.probe("refit_refused_object_kept")
+                    out["refused_keep"] = True
+                    out["gate0"] = old.gate0
+                    out["gate_after"] = {"dq": _names(_wlist(getattr(model, "disqualification", None))),
+                                         "tz": str(getattr(model, "baseline_timezone", None))}
+                    out["still_fitted"] = bool(getattr(model, "is_fitted", True))
+                else:
+                    self._drop_model(a["m"])
             return out
+        if keep_old:
+            self._drop_model(a["m"])
         after = self.data_state(ds.obj)
         out["class"] = "returned"
         out["data_changed"] = D.diff_parts(before, after)
@@ -1081,6 +1102,89 @@ class Worker:
         sig["fam"], sig["profile"] = fam, profile
         return {"class": "done", "fam": fam, "profile": profile, "entries": n, "points": len(ks), "fired": fired,
                 "data_altered": changed, "presig": sig, "nontrivial": True, "abort": {"fired": fired > 0, "sweep": True}}
+
+    def op_SERIAL_ABORT_SWEEP(self, a, store):
+        """Fault enumeration over the two serialisation calls of one model.
+
+        (1) to_json interrupted at every library-frame entry (one deep copy per crash point): the copy must serialise
+        as before afterwards.  (2) from_dict interrupted at every entry, on a dict the caller holds: that dict — the
+        durable document — must be unchanged, and restoring from it afterwards must give the same document again
+        (nothing half-registered at class or module level)."""
+        slot = self.models.get(a["m"])
+        if slot is None or not slot.fitted:
+            return {"class": "skipped"}
+        exc = a.get("exc", "MemoryError")
+        base_dg, base_txt, mode = self.model_state(slot.obj)
+        if base_txt is None:
+            return {"class": "skipped", "why": mode}
+        cap = int(a.get("cap", 12 if slot.fam == "caltrack" else 160))
+        cls = getattr(self.em, P.FAMILIES[slot.fam][0])
+        out = {"class": "done", "fam": slot.fam, "profile": slot.profile, "gen": slot.gen}
+
+        def points(n):
+            return list(range(1, n + 1)) if n <= cap else sorted({1 + (i * n) // cap for i in range(cap)})
+
+        # ---- (1) to_json
+        try:
+            m2 = copy.deepcopy(slot.obj)
+            n1, dry1 = seams.count_entries(lambda: self._call(lambda: m2.to_json()))
+        except Exception as e:  # noqa: BLE001
+            return {"class": "skipped", "why": _cls(e)}
+        fired = 0
+        altered = []
+        for k in points(n1):
+            mk = copy.deepcopy(slot.obj)
+            mon, _res, _err = seams.run_with_abort(lambda: self._call(lambda: mk.to_json()), k, exc)
+            if not mon.fired:
+                continue
+            fired += 1
+            dg, txt, md = self.model_state(mk)
+            if dg != base_dg:
+                paths = D.top_diff(json.loads(base_txt), json.loads(txt)) if txt else [md]
+                altered.append({"k": k, "where": mon.where, "paths": paths})
+        out.update({"store_entries": n1, "store_fired": fired, "store_altered": altered[:6]})
+        # ---- (2) from_dict on a document the caller holds
+        ref = json.dumps(json.loads(base_txt), sort_keys=True)
+        try:
+            d0 = json.loads(base_txt)
+            n2, dry2 = seams.count_entries(lambda: self._call(lambda: cls.from_dict(d0)))
+        except Exception as e:  # noqa: BLE001
+            out["load_skipped"] = _cls(e)
+            n2 = 0
+        fired2 = 0
+        doc_altered = []
+        later = []
+        for k in points(n2):
+            d = json.loads(base_txt)
+            mon, _res, _err = seams.run_with_abort(lambda: self._call(lambda: cls.from_dict(d)), k, exc)
+            if not mon.fired:
+                continue
+            fired2 += 1
+            try:
+                now = json.dumps(d, sort_keys=True, default=str)
+            except Exception as e:  # noqa: BLE001
+                now = _cls(e)
+            if now != ref:
+                try:
+                    paths = D.top_diff(json.loads(ref), json.loads(now))
+                except Exception:  # noqa: BLE001
+                    paths = ["unserialisable"]
+                doc_altered.append({"k": k, "where": mon.where, "paths": paths})
+                continue
+            if slot.fam != "caltrack" or fired2 <= 3:
+                try:
+                    again = self._call(lambda: cls.from_dict(json.loads(base_txt)))
+                    _dg, t2, md = self.model_state(again)
+                    same = t2 is not None and json.dumps(json.loads(t2), sort_keys=True) == ref
+                    if not same:
+                        later.append({"k": k, "where": mon.where, "got": md})
+                except Exception as e:  # noqa: BLE001
+                    later.append({"k": k, "where": mon.where, "got": _cls(e)})
+        self.probe("serial_abort_points", fired + fired2)
+        sig, nt = self._presig("SERIAL_ABORT_SWEEP", slot)
+        out.update({"load_entries": n2, "load_fired": fired2, "doc_altered": doc_altered[:6], "later_load": later[:6],
+                    "presig": sig, "nontrivial": True, "abort": {"fired": (fired + fired2) > 0, "sweep": True}})
+        return out
 
     def op_PREDICT_GRID(self, a, store):
         """Daily/billing: predict on a temperature sweep from -60 to 140 F that also contains, for every sub-model of
